@@ -2,6 +2,8 @@ pub mod c01;
 pub mod c02;
 pub mod c03;
 pub mod c06;
+pub mod c07;
+pub mod c08;
 pub mod c10;
 
 use crate::engine::Prop;
@@ -12,6 +14,8 @@ pub fn get(id: &str) -> Option<Box<dyn Prop>> {
     "C02" => Some(Box::new(c02::C02)),
     "C03" => Some(Box::new(c03::C03)),
     "C06" => Some(Box::new(c06::C06)),
+    "C07" => Some(Box::new(c07::C07)),
+    "C08" => Some(Box::new(c08::C08)),
     "C10" => Some(Box::new(c10::C10)),
     _ => None,
   }
